@@ -192,6 +192,26 @@ def intersect (sqrt : K → K) (lt : K → K → Bool) (sh : Shape K) (P0 S : V3
     Option (V3 K × V3 K) :=
   newton sqrt lt sh (toVertexPlane P0 S) S eps maxiter 0
 
+/-! ## closed-form ray / conic intersection (what the Newton iteration must converge to) -/
+
+/-- implicit equation of the conic of revolution: `G(P) = c(x² + y²) − 2z + (1+κ) c z²` (`G = 0` on the surface) -/
+def conicImplicit (c k : K) (P : V3 K) : K := c * (P.x * P.x + P.y * P.y) - 2 * P.z + (1 + k) * c * (P.z * P.z)
+
+/-- along the ray `P + s S`:  `G = A s² + 2 B s + C` -/
+def conicA (c k : K) (S : V3 K) : K := c * (S.x * S.x + S.y * S.y + (1 + k) * (S.z * S.z))
+def conicB (c k : K) (P S : V3 K) : K := c * (P.x * S.x + P.y * S.y + (1 + k) * (P.z * S.z)) - S.z
+def conicC (c k : K) (P : V3 K) : K := conicImplicit c k P
+
+/-- the root that tends to `−C/(2B)` as the curvature vanishes (the intersection next to the vertex for a ray travelling towards
+`+z`), in the cancellation-free form `s = C / (√(B² − AC) − B)`; for a plane (`c = 0`) it is `−P.z/S.z` -/
+def conicHitS (sqrt : K → K) (c k : K) (P S : V3 K) : K :=
+  let A := conicA c k S
+  let B := conicB c k P S
+  let C := conicC c k P
+  C / (sqrt (B * B - A * C) - B)
+
+def conicHit (sqrt : K → K) (c k : K) (P S : V3 K) : V3 K := V3.add P (V3.smul (conicHitS sqrt c k P S) S)
+
 /-! ## the trace -/
 
 inductive Kind where
